@@ -9,6 +9,7 @@
  *   get <map> <keyhex>                     user-space bpf_map_lookup_elem (does not touch LRU order)
  *   connect4 <ip4hex> <port4hex> <protocol> <family> <socktype>
  *   tcp <family> <daddrhex4> <dporthex2> <sport> <saddrhex4>
+ *   nop                                    nothing happens in the program (a step of the environment); maps are dumped
  *   reset                                  empty all maps
  *   dump on|off                            include full map dumps in every reply (default on)
  *   layout                                 sizeof/offsetof of the C structs, map declarations
@@ -222,6 +223,8 @@ int main(void)
             unsigned pk = printk_calls;
             int r = verif_tcp_connect((unsigned)strtoul(a[1], 0, 10), da, dp, (unsigned short)strtoul(a[4], 0, 10), sa);
             printf(",\"ret\":%d,\"printk\":%u", r, printk_calls - pk);
+        } else if (!strcmp(a[0], "nop") && n == 1) {
+            /* e.g. a connection ends and nobody consumed its record: no hook runs, no map operation */
         } else if (!strcmp(a[0], "reset") && n == 1) {
             for (unsigned i = 0; i < nmaps; i++) { maps[i].n = 0; maps[i].evictions = 0; }
         } else if (!strcmp(a[0], "dump") && n == 2) {
